@@ -11,6 +11,17 @@
 //	        (constant indices into arrays are compile-time checked and left out;
 //	        constant indices into slices/strings are NOT: s[0] panics on an empty s)
 //	slice   slice expression x[a:b] with at least one bound
+//	mapwrite  assignment to an entry of a map that MAY BE NIL: `m[k] = v`, `m[k] op= v`, `m[k]++` where
+//	        m has a map type (or an unknown type) and is not a local variable of the enclosing
+//	        function whose every assignment is an allocation (`make(...)` or a composite literal) and
+//	        whose address is never taken.  Parameters, results of calls, struct fields, `var m map[..]..`
+//	        without a value and variables that are also assigned something else are all "may be nil".
+//	nilmap  a SOURCE of nil maps: a variable of map type (or unknown type) that is assigned the literal
+//	        `nil`, or declared `var m map[K]V` without a value
+//	mapsink   a map that MAY BE NIL (same rule) handed, as a call argument, to a function or method of a
+//	        package OUTSIDE the repository and outside the standard library: the callee may write into it
+//	        in place (apiextensions defaulting.Default, unstructured.SetNestedField ...), which the
+//	        census cannot look into.
 //
 // Types come from go/types with a best-effort importer (stdlib from source, packages of the
 // repository's own modules from source, directly imported third-party packages from the module
@@ -172,6 +183,12 @@ func (l *loader) Import(path string) (*types.Package, error) {
 	}
 	l.pkgs[path] = p
 	return p, nil
+}
+
+// isLocal: the import path belongs to one of the repository's own modules.
+func (l *loader) isLocal(path string) bool {
+	m, _, ok := l.find(path)
+	return ok && m.local
 }
 
 func (l *loader) parseDir(dir string, withComments bool) []*ast.File {
@@ -442,7 +459,88 @@ func recvName(fd *ast.FuncDecl) string {
 	return fd.Name.Name
 }
 
-func scanFile(fset *token.FileSet, rel string, f *ast.File, info *types.Info, out *[]site) {
+// allocOnly returns the names of the local variables of a function body that only ever hold a
+// freshly allocated map: every assignment to the name is `make(...)` or a composite literal, there
+// is at least one, the name is not a parameter / named result / range variable, it is never
+// declared without a value and its address is never taken (json.Unmarshal(data, &m) may set a map
+// to nil).  Purely by name: shadowing makes the answer more conservative, never less.
+func allocOnly(fd *ast.FuncDecl) map[string]bool {
+	alloc := map[string]int{}
+	other := map[string]int{}
+	isAlloc := func(e ast.Expr) bool {
+		switch x := ast.Unparen(e).(type) {
+		case *ast.CompositeLit:
+			return true
+		case *ast.CallExpr:
+			if id, ok := ast.Unparen(x.Fun).(*ast.Ident); ok && id.Name == "make" {
+				return true
+			}
+		}
+		return false
+	}
+	fields := func(fl *ast.FieldList) {
+		if fl == nil {
+			return
+		}
+		for _, f := range fl.List {
+			for _, n := range f.Names {
+				other[n.Name]++
+			}
+		}
+	}
+	fields(fd.Recv)
+	fields(fd.Type.Params)
+	fields(fd.Type.Results)
+	ast.Inspect(fd.Body, func(n ast.Node) bool {
+		switch x := n.(type) {
+		case *ast.FuncLit:
+			fields(x.Type.Params)
+			fields(x.Type.Results)
+		case *ast.AssignStmt:
+			for i, l := range x.Lhs {
+				id, ok := l.(*ast.Ident)
+				if !ok {
+					continue
+				}
+				if len(x.Lhs) == len(x.Rhs) && isAlloc(x.Rhs[i]) {
+					alloc[id.Name]++
+				} else {
+					other[id.Name]++
+				}
+			}
+		case *ast.ValueSpec:
+			for i, id := range x.Names {
+				if len(x.Values) == len(x.Names) && isAlloc(x.Values[i]) {
+					alloc[id.Name]++
+				} else {
+					other[id.Name]++
+				}
+			}
+		case *ast.RangeStmt:
+			for _, l := range []ast.Expr{x.Key, x.Value} {
+				if id, ok := l.(*ast.Ident); ok {
+					other[id.Name]++
+				}
+			}
+		case *ast.UnaryExpr:
+			if x.Op == token.AND {
+				if id, ok := ast.Unparen(x.X).(*ast.Ident); ok {
+					other[id.Name]++
+				}
+			}
+		}
+		return true
+	})
+	out := map[string]bool{}
+	for n, c := range alloc {
+		if c > 0 && other[n] == 0 {
+			out[n] = true
+		}
+	}
+	return out
+}
+
+func scanFile(fset *token.FileSet, rel string, f *ast.File, info *types.Info, local func(string) bool, out *[]site) {
 	at := func(n ast.Node) int { return fset.Position(n.Pos()).Line }
 	// comma-ok type assertions: v, ok := x.(T) / v, ok = x.(T) / var v, ok = x.(T)
 	commaOK := map[*ast.TypeAssertExpr]bool{}
@@ -482,23 +580,115 @@ func scanFile(fset *token.FileSet, rel string, f *ast.File, info *types.Info, ou
 		_, lit := ast.Unparen(e).(*ast.BasicLit)
 		return lit
 	}
-	var walk func(n ast.Node, fn string, body *ast.BlockStmt)
-	walk = func(n ast.Node, fn string, body *ast.BlockStmt) {
+	// mayBeNilMap: e has a map type (or an unknown one, when unknownToo) and is not a local variable
+	// that only ever holds a fresh allocation.
+	mayBeNilMap := func(e ast.Expr, fresh map[string]bool, unknownToo bool) bool {
+		t := typeOf(e)
+		if t == nil {
+			if !unknownToo {
+				return false
+			}
+		} else if _, ok := t.Underlying().(*types.Map); !ok {
+			return false
+		}
+		switch x := ast.Unparen(e).(type) {
+		case *ast.Ident:
+			if x.Name == "nil" {
+				return false
+			}
+			return !fresh[x.Name]
+		case *ast.CompositeLit:
+			return false
+		case *ast.CallExpr:
+			if id, ok := ast.Unparen(x.Fun).(*ast.Ident); ok && id.Name == "make" {
+				return false
+			}
+		}
+		return true
+	}
+	var walk func(n ast.Node, fn string, body *ast.BlockStmt, fresh map[string]bool)
+	walk = func(n ast.Node, fn string, body *ast.BlockStmt, fresh map[string]bool) {
+		mapWrite := func(l ast.Expr) {
+			if ix, ok := ast.Unparen(l).(*ast.IndexExpr); ok && mayBeNilMap(ix.X, fresh, false) {
+				*out = append(*out, site{file: rel, fn: fn, kind: "mapwrite", line: at(ix)})
+			}
+		}
 		ast.Inspect(n, func(n ast.Node) bool {
 			switch x := n.(type) {
 			case *ast.FuncDecl:
 				if x.Body != nil && fn == "<package>" {
-					walk(x.Body, recvName(x), x.Body)
+					walk(x.Body, recvName(x), x.Body, allocOnly(x))
 				}
 				return fn != "<package>"
+			case *ast.AssignStmt:
+				if x.Tok != token.DEFINE {
+					for _, l := range x.Lhs {
+						mapWrite(l)
+					}
+				}
+				if len(x.Lhs) == len(x.Rhs) {
+					for i, r := range x.Rhs {
+						if id, ok := ast.Unparen(r).(*ast.Ident); ok && id.Name == "nil" {
+							if _, blank := x.Lhs[i].(*ast.Ident); blank && x.Lhs[i].(*ast.Ident).Name == "_" {
+								continue
+							}
+							t := typeOf(x.Lhs[i])
+							if t == nil {
+								*out = append(*out, site{file: rel, fn: fn, kind: "nilmap", line: at(x)})
+							} else if _, ok := t.Underlying().(*types.Map); ok {
+								*out = append(*out, site{file: rel, fn: fn, kind: "nilmap", line: at(x)})
+							}
+						}
+					}
+				}
+			case *ast.DeclStmt:
+				if gd, ok := x.Decl.(*ast.GenDecl); ok && gd.Tok == token.VAR {
+					for _, sp := range gd.Specs {
+						if vs, ok := sp.(*ast.ValueSpec); ok && vs.Type != nil && len(vs.Values) == 0 {
+							if t := typeOf(vs.Type); t != nil {
+								if _, ok := t.Underlying().(*types.Map); ok {
+									for range vs.Names {
+										*out = append(*out, site{file: rel, fn: fn, kind: "nilmap", line: at(vs)})
+									}
+								}
+							} else if _, ok := vs.Type.(*ast.MapType); ok {
+								for range vs.Names {
+									*out = append(*out, site{file: rel, fn: fn, kind: "nilmap", line: at(vs)})
+								}
+							}
+						}
+					}
+				}
+			case *ast.IncDecStmt:
+				mapWrite(x.X)
 			case *ast.ValueSpec:
 				if fn == "<package>" && len(x.Names) > 0 {
+					if x.Type != nil && len(x.Values) == 0 {
+						isMap := false
+						if t := typeOf(x.Type); t != nil {
+							_, isMap = t.Underlying().(*types.Map)
+						} else {
+							_, isMap = x.Type.(*ast.MapType)
+						}
+						if isMap {
+							for _, nm := range x.Names {
+								*out = append(*out, site{file: rel, fn: "var " + nm.Name, kind: "nilmap", line: at(x)})
+							}
+						}
+					}
 					for _, v := range x.Values {
-						walk(v, "var "+x.Names[0].Name, nil)
+						walk(v, "var "+x.Names[0].Name, nil, nil)
 					}
 					return false
 				}
 			case *ast.CallExpr:
+				if p := calleePkg(info, x); p != "" && !isStd(p) && !local(p) {
+					for _, a := range x.Args {
+						if mayBeNilMap(a, fresh, false) {
+							*out = append(*out, site{file: rel, fn: fn, kind: "mapsink", line: at(x)})
+						}
+					}
+				}
 				if id, ok := ast.Unparen(x.Fun).(*ast.Ident); ok && id.Name == "panic" {
 					builtin := true
 					if obj, ok := info.Uses[id]; ok {
@@ -551,7 +741,33 @@ func scanFile(fset *token.FileSet, rel string, f *ast.File, info *types.Info, ou
 			return true
 		})
 	}
-	walk(f, "<package>", nil)
+	walk(f, "<package>", nil, nil)
+}
+
+// calleePkg: import path of the package that declares the called function or method ("" when
+// unknown, for builtins, conversions and calls of function values).
+func calleePkg(info *types.Info, c *ast.CallExpr) string {
+	var id *ast.Ident
+	switch f := ast.Unparen(c.Fun).(type) {
+	case *ast.Ident:
+		id = f
+	case *ast.SelectorExpr:
+		id = f.Sel
+	case *ast.IndexExpr: // generic instantiation f[T](...)
+		switch g := ast.Unparen(f.X).(type) {
+		case *ast.Ident:
+			id = g
+		case *ast.SelectorExpr:
+			id = g.Sel
+		}
+	}
+	if id == nil {
+		return ""
+	}
+	if fn, ok := info.Uses[id].(*types.Func); ok && fn.Pkg() != nil {
+		return fn.Pkg().Path()
+	}
+	return ""
 }
 
 func leanStr(s string) string {
@@ -649,7 +865,7 @@ func main() {
 			conf.Check(dir, fset, files, info)
 			for _, f := range files {
 				rel, _ := filepath.Rel(root, fset.Position(f.Pos()).Filename)
-				scanFile(fset, filepath.ToSlash(rel), f, info, &sites)
+				scanFile(fset, filepath.ToSlash(rel), f, info, l.isLocal, &sites)
 				nfiles++
 			}
 		}
@@ -679,7 +895,10 @@ func main() {
 	b.WriteString("/- GENERATED by /verif/extract/c19 from the repository's working tree - do not edit.\n")
 	b.WriteString("   Panic-site census: (file, enclosing function, kind) of every explicit panic, single-value\n")
 	b.WriteString("   type assertion and index/slice expression on a non-map in the non-test files of the\n")
-	b.WriteString("   packages on the untrusted-input path.  Sorted, with multiplicity, no line numbers. -/\n")
+	b.WriteString("   packages on the untrusted-input path, plus the ingredients of a nil-map write: nilmap (a map\n")
+	b.WriteString("   variable set to nil / declared without value), mapwrite (entry assignment to a map that is not\n")
+	b.WriteString("   a locally allocated variable), mapsink (such a map handed to a third-party function).\n")
+	b.WriteString("   Sorted, with multiplicity, no line numbers. -/\n")
 	b.WriteString("namespace Pko.Gen.PanicCensus\n\n")
 	fmt.Fprintf(&b, "/-- scanned directories (recursively) -/\ndef roots : List String := [%s]\n\n", func() string {
 		var q []string
